@@ -128,7 +128,17 @@ def explore_job(ix, name, run, obligations, overrides=None, pre=None, panics_are
                     try: v.case = witness(m, kind, out)
                     except Exception as ex: res.notes.append(f'witness failed: {ex}')
                 res.violations.append(v)
-            else: res.inconclusive.append(f'solver unknown on obligation {label}')
+            else:
+                # wall-clock timeouts are load dependent: retry once in a fresh solver with a much larger limit before giving up
+                s2 = z3.Solver(); s2.set('timeout', timeout_ms * 10); s2.add(prec, *pc, z3.Not(formula)); r2 = s2.check()
+                if r2 == z3.unsat: res.discharged += 1
+                elif r2 == z3.sat:
+                    m = s2.model(); v = Violation(name, label, model_to_json(m), f'path={kind} out={short(out)}', key=label)
+                    if witness:
+                        try: v.case = witness(m, kind, out)
+                        except Exception as ex: res.notes.append(f'witness failed: {ex}')
+                    res.violations.append(v)
+                else: res.inconclusive.append(f'solver unknown on obligation {label}')
             base.pop()
         if witness is not None and len(res.witnesses) < 64:
             base.push()
